@@ -23,6 +23,7 @@ META = dict(
     technique="append-uniqueness obligation (dominating membership test), who-may-write on the list, reuse of C07/C09/C11/C06 rules",
 )
 META["text"] += ' Sample numbers are re-derived from the seed and the position alone, never from what earlier rounds did to the records (= C07.R5).'
+META["text"] += ' R4 also borrows C07.R6 (both samples sorted in place by the same selection-order key).'
 
 
 def _norm_empty(e):
